@@ -2,7 +2,7 @@
 # Confirm every seeded change myself: applies cleanly, compiles, existing suite passes, demo fails with it and passes without.
 # Uses ONE scratch worktree + target dir under /tmp/seedconfirm (removed at the end). Writes /verif/seeded/<id>/confirm.json
 set -u
-W=/tmp/seedconfirm
+W=${CONFIRM_DIR:-/tmp/seedconfirm}
 rm -rf $W; mkdir -p $W
 git -C /repo worktree add --detach $W/wt HEAD -q
 export CARGO_TARGET_DIR=$W/target CARGO_NET_OFFLINE=true
@@ -29,7 +29,7 @@ d,applies,suite,dw,dwo,npass=sys.argv[1:]
 tail=lambda p: open(p,errors='replace').read()[-1500:] if __import__('os').path.exists(p) else ''
 json.dump({"applies":applies=="true","suite_exit":suite,"suite_361_passed":npass=="1","demo_exit_with_change":dw,"demo_exit_without_change":dwo,
  "confirmed": applies=="true" and suite=="0" and npass=="1" and dw not in ("0","") and dwo=="0",
- "demo_with_tail":tail('/tmp/seedconfirm/log_with.txt')[-800:]}, open(d+"/confirm.json","w"), indent=1)
+ "demo_with_tail":tail(''+__import__("os").environ.get("CONFIRM_DIR","/tmp/seedconfirm")+'/log_with.txt')[-800:]}, open(d+"/confirm.json","w"), indent=1)
 PY
   echo "$id $(python3 -c "import json;print(json.load(open('$d/confirm.json'))['confirmed'])")"
 done
